@@ -4,7 +4,7 @@ Request:  `<op> <args...>`; polynomials over GF(p) are comma separated coefficie
 binary polynomials are decimal integers.  Answers: list / integer / `True|False` / tuple joined by `|` /
 exception class name / `nofuel` / `bad-op`.
 
-List ops (first argument p):  neg add sub mul sq lshift rshift divmod mod floordiv monic monicinv gcd gcdext
+List ops (first argument p):  neg add sub mul sq lshift rshift reverse(p a d|N) truncate(p a n) divmod mod floordiv monic monicinv gcd gcdext
   invert powmod(p a n m|N) irr xgf(p a) nextirr(p fuel a) findirr(p d fuel) toint fromint(p n) eval(p a x) fromlist(a)
   lt(a b) degree(a) terms(a) wf(p a)
 Bitmask ops (prefix `b.`), same names; plus `b.tolist`, `b.fromlist`.
@@ -47,6 +47,12 @@ def stepList (op : String) (args : List String) : Option String :=
   | "sq", [p, a] => do let p ← N p; let a ← P a; pure (showP (GFpX.sq p a))
   | "lshift", [_, a, n] => do let a ← P a; let n ← N n; pure (showP (GFpX.lshift a n))
   | "rshift", [_, a, n] => do let a ← P a; let n ← N n; pure (showP (GFpX.rshift a n))
+  | "reverse", [_, a, d] => do
+      let a ← P a
+      if d == "N" then pure (showP (GFpX.reverse a none)) else do
+        let d ← Z d
+        if d < -1 then none else pure (showP (GFpX.reverse a (some (d + 1).toNat)))
+  | "truncate", [_, a, n] => do let a ← P a; let n ← N n; pure (showP (GFpX.truncate a n))
   | "divmod", [p, a, b] => do
       let p ← N p; let a ← P a; let b ← P b
       pure (showE (fun qr => showP qr.1 ++ "|" ++ showP qr.2) (GFpX.divmod p a b))
@@ -95,6 +101,12 @@ def stepBin (op : String) (args : List String) : Option String :=
   | "sq", [a] => do let a ← N a; pure (toString (BinPoly.sq a))
   | "lshift", [a, n] => do let a ← N a; let n ← N n; pure (toString (BinPoly.lshift a n))
   | "rshift", [a, n] => do let a ← N a; let n ← N n; pure (toString (BinPoly.rshift a n))
+  | "reverse", [a, d] => do
+      let a ← N a
+      if d == "N" then pure (toString (BinPoly.reverse a none)) else do
+        let d ← Z d
+        if d < -1 then none else pure (toString (BinPoly.reverse a (some (d + 1).toNat)))
+  | "truncate", [a, n] => do let a ← N a; let n ← N n; pure (toString (BinPoly.truncate a n))
   | "divmod", [a, b] => do
       let a ← N a; let b ← N b
       pure (showE (fun qr => toString qr.1 ++ "|" ++ toString qr.2) (BinPoly.divmod a b))
